@@ -256,6 +256,27 @@ struct W2
     }
   };
 
+  template <typename SV, bool Copyable, typename Dummy = void>
+  struct SelfCopy
+  {
+    static void op_eq (SV&, Ctx&) { }
+    static void assign (SV&, Ctx&) { }
+  };
+  template <typename SV, typename Dummy>
+  struct SelfCopy<SV, true, Dummy>
+  {
+    static void op_eq (SV& v, Ctx& cx)
+    {
+      SV *alias = &v;           // through a pointer so that the compiler does not warn / fold
+      SVMC_CALL (cx, v = static_cast<const SV&> (*alias));
+    }
+    static void assign (SV& v, Ctx& cx)
+    {
+      SV *alias = &v;
+      SVMC_CALL (cx, v.assign (static_cast<const SV&> (*alias)));
+    }
+  };
+
   // -------------------------------------------------------------------------------------------
   // Generator alphabet on one container.
   template <typename SV>
@@ -289,6 +310,29 @@ struct W2
         cx.expect.clear (); cx.required = 0;
         SVMC_CALL (cx, v.clear ());
         return true;
+      case OP2_SELF_COPY_ASSIGN:
+        cx.required = s;
+        SelfCopy<SV, ET::copyable>::op_eq (v, cx);
+        return true;
+      case OP2_SELF_ASSIGN_FN:
+        cx.required = s;
+        SelfCopy<SV, ET::copyable>::assign (v, cx);
+        return true;
+      case OP2_SELF_SWAP:
+      {
+        SV *alias = &v;
+        cx.required = s;
+        SVMC_CALL (cx, v.swap (*alias));
+        return true;
+      }
+      case OP2_SELF_MOVE_ASSIGN:
+      {
+        SV *alias = &v;
+        cx.required = s;
+        cx.expect_ret = -2;       // marker: contents unspecified afterwards
+        SVMC_CALL (cx, v = std::move (*alias));
+        return true;
+      }
       default:
         return false;
     }
@@ -434,9 +478,15 @@ struct W2
       if (cx.exc == EX_NONE)
       {
         const std::vector<int>& act = (op.p == 0) ? act_a : act_b;
-        if (act != cx.expect)
+        if (op.kind == OP2_SELF_MOVE_ASSIGN)
+        {
+          // valid but unspecified: only the invariants (probed above) and the other container
+        }
+        else if (act != cx.expect)
           report ("C01", "model.contents", "contents " + ints_to_string (act) + " differ from std::vector's "
                   + ints_to_string (cx.expect));
+        if ((op.kind == OP2_SELF_COPY_ASSIGN || op.kind == OP2_SELF_SWAP || op.kind == OP2_SELF_ASSIGN_FN) && cx.n_alloc != 0)
+          report ("C04", "alloc.needless", "a self copy-assignment / self swap allocated");
         const std::vector<int>& other_act = (op.p == 0) ? act_b : act_a;
         const std::vector<int>& other_model = (op.p == 0) ? w.mb : w.ma;
         if (other_act != other_model)
@@ -730,6 +780,17 @@ struct W2
     }
     if (! (o.focus & G_BINARY))
       return;
+    for (int side = 0; side < 2; ++side)
+    {
+      oi.inject = true;
+      if (ET::copyable)
+      {
+        oi.op = Op (OP2_SELF_COPY_ASSIGN, side, 0, -1, 0); out.push_back (oi);
+        oi.op = Op (OP2_SELF_ASSIGN_FN, side, 0, -1, 0); out.push_back (oi);
+      }
+      oi.op = Op (OP2_SELF_SWAP, side, 0, -1, 0); out.push_back (oi);
+      oi.op = Op (OP2_SELF_MOVE_ASSIGN, side, 0, -1, 0); out.push_back (oi);
+    }
     for (int dir = 0; dir < 2; ++dir)
       for (int k = OP2_COPY_CTOR; k <= OP2_COMPARE; ++k)
       {
